@@ -286,8 +286,11 @@ def lexical_cases():
     for field in ("{x! r}", "{x!  s}", "{x !r}", "{x!\tr}", "{x! r:>3}", "{x = ! r}", "{x!\\\nr}", "{x!}", "{x! }", "{x!r !s}", "{x!rs}", "{x! ra}", "{!r}", "{x!r:}", "{x !r :}",
                   "{lambda x:{1}}", "{1,lambda y:{y}}", "{lambda :{1}}", "{x if y else lambda :{1}}", "{lambda x:{1}!r}", "{lambda x:{1}:{2}}", "{a or lambda:{b}}", "{not lambda:{b}}", "{-1, lambda:{b}{c}}", "{*a, lambda:{b}}",
                   "{ lambda:{b}}", "{\\\nlambda x:{1}}", "{#c\nlambda x:{1}}", "{a if lambda:{b} else c}", "{lambda a=(1):{a}}", "{lambda *a, **k:{a}}", "{x:=lambda:{1}}", "{await lambda:{1}}", "{yield lambda:{1}}",
-                  "{lambda: (yield)}", "{a, b = 1}", "{a; b}", "{a:{b:{c:{d}}}}", "{a!r!s}", "{a:!r}", "{a=!r=}", "{a==}", "{a = = }", "{}", "{ }", "{!}", "{:}", "{=}", "{a b}", "{a,,}", "{a:{}}", "{a:{b!}}", "{a:{b c}}"):
-        for pre, post in (("f'", "'"), ("f'''", "'''"), ("rf\"", "\""), ("x = f'a", "b' 'c'"), ("f'{z}", "{z}'"), ("print(f\"\"\"", "\"\"\")"), ("f'{f\"", "\"}'")):
+                  "{lambda: (yield)}", "{a, b = 1}", "{a; b}", "{a:{b:{c:{d}}}}", "{a!r!s}", "{a:!r}", "{a=!r=}", "{a==}", "{a = = }", "{}", "{ }", "{!}", "{:}", "{=}", "{a b}", "{a,,}", "{a:{}}", "{a:{b!}}", "{a:{b c}}",
+                  # a quote inside a format spec (the literal's own, the enclosing literal's, the other one), and a spec running over a line end
+                  "{x:'}", "{x:\"}", "{x:'>5}", "{x:a\nb}", "{x!r:\"\"}", "{x:{y}'}", "{x:'{y}}"):
+        for pre, post in (("f'", "'"), ("f'''", "'''"), ("rf\"", "\""), ("x = f'a", "b' 'c'"), ("f'{z}", "{z}'"), ("print(f\"\"\"", "\"\"\")"), ("f'{f\"", "\"}'"),
+                          ("f\"{f'", "'}\""), ("f\"\"\"{f'", "'}\"\"\""), ("f'''{f\"", "\"}'''")):
             yield pre + field + post + "\n"
 
 
